@@ -48,20 +48,21 @@ type schedule struct {
 }
 
 type stats struct {
-	Schedules   int            `json:"schedules"`
-	Blocked     int            `json:"blocked_steps"`
-	Unknown     int            `json:"unknown_steps"`
-	Unfinished  int            `json:"unfinished"`
-	Stress      int            `json:"stress_runs"`
-	E2ERuns     int            `json:"e2e_runs"`
-	E2EReq      int            `json:"e2e_requests"`
-	E2EReloads  int            `json:"e2e_reloads"`
-	Resolves    int            `json:"resolves"`
-	Fallbacks   int            `json:"fallback_answers"`
-	Events      int            `json:"events"`
-	GateArrival map[string]int `json:"gate_arrivals"`
-	Stored      map[string]int `json:"store_events"`
-	Samples     []any          `json:"samples"`
+	Schedules   int                `json:"schedules"`
+	Blocked     int                `json:"blocked_steps"`
+	Unknown     int                `json:"unknown_steps"`
+	Unfinished  int                `json:"unfinished"`
+	Stress      int                `json:"stress_runs"`
+	E2ERuns     int                `json:"e2e_runs"`
+	E2EReq      int                `json:"e2e_requests"`
+	E2EReloads  int                `json:"e2e_reloads"`
+	Resolves    int                `json:"resolves"`
+	Fallbacks   int                `json:"fallback_answers"`
+	Events      int                `json:"events"`
+	GateArrival map[string]int     `json:"gate_arrivals"`
+	Stored      map[string]int     `json:"store_events"`
+	Timing      map[string]float64 `json:"section_seconds"`
+	Samples     []any              `json:"samples"`
 }
 
 func gid() uint64 {
@@ -113,6 +114,18 @@ func newCacheRig(tw *tracefmt.Writer, c *sched.Controller) *cacheRig {
 	return r
 }
 
+// cacheKey maps the model's abstract keys to cache keys: "a" and "b" are the same backend asked
+// with different client protocols, any other key is another backend.
+func cacheKey(key string) (backend string, protocol int) {
+	switch key {
+	case "a":
+		return "x.example:25565", 765
+	case "b":
+		return "x.example:25565", 47
+	}
+	return key + ".example:25565", 765
+}
+
 func (r *cacheRig) load(name, key string) {
 	r.fg.names.Store(gid(), name)
 	r.tw.Emit(tracefmt.Rec{"ev": "start", "r": name, "key": key})
@@ -120,7 +133,8 @@ func (r *cacheRig) load(name, key string) {
 	// clock (wall clock + offset): adding the current offset to the TTL keeps the two
 	// consistent for entries stored after a tick
 	ttlNow := ttl + time.Duration(r.offset.Load())
-	v, _ := r.cache.Load(key+".example:25565", 765, 0, ttlNow, func() (string, error) {
+	backend, protocol := cacheKey(key)
+	v, _ := r.cache.Load(backend, protocol, 0, ttlNow, func() (string, error) {
 		f := int(r.nextF.Add(1))
 		r.tw.Emit(tracefmt.Rec{"ev": "fbegin", "f": f, "key": key, "r": name})
 		if r.gate {
@@ -160,12 +174,14 @@ func TestSchedules(t *testing.T) {
 	if err != nil {
 		t.Fatal(err)
 	}
-	st := stats{GateArrival: map[string]int{}, Stored: map[string]int{}}
+	st := stats{GateArrival: map[string]int{}, Stored: map[string]int{}, Timing: map[string]float64{}}
+	lapT := time.Now()
+	lap := func(name string) { st.Timing[name] = time.Since(lapT).Seconds(); lapT = time.Now() }
 	step := time.Duration(tracefmt.EnvInt("VERIF_STEP_MS", 3)) * time.Millisecond
 
 	for i, s := range scheds {
 		tw.Emit(tracefmt.Rec{"ev": "reset", "n": i})
-		c := sched.New(nil, "pc.miss", "pc.flight.enter", "pc.loader", "pc.flight.loaded")
+		c := sched.New(nil, "pc.miss", "pc.flight.enter", "pc.loader", "pc.flight.loaded", "pc.reset.enter", "pc.reset.mid")
 		var mu sync.Mutex
 		c.OnEvent = func(thread, name string, kv []any) {
 			if name == "pc.store" {
@@ -191,13 +207,14 @@ func TestSchedules(t *testing.T) {
 		}
 		var steps []string
 		for _, name := range s.Sched {
+			stt := c.Step(name, step)
 			if strings.HasSuffix(name, "f") {
 				// the flight goroutine registers itself when it starts: give it a moment
-				for k := 0; k < 250 && c.At(name) == ""; k++ {
+				for k := 0; k < 100 && stt == sched.Unknown; k++ {
 					time.Sleep(200 * time.Microsecond)
+					stt = c.Step(name, step)
 				}
 			}
-			stt := c.Step(name, step)
 			switch stt {
 			case sched.Blocked:
 				st.Blocked++
@@ -225,6 +242,7 @@ func TestSchedules(t *testing.T) {
 		}
 	}
 
+	lap("schedules")
 	// free-running stress without gates (meaningful under -race)
 	rng := rand.New(rand.NewSource(tracefmt.Seed()))
 	nStress := tracefmt.EnvInt("VERIF_STRESS", 100)
@@ -236,7 +254,7 @@ func TestSchedules(t *testing.T) {
 		for k := 0; k < n; k++ {
 			name := "s" + strconv.Itoa(k)
 			kind := rng.Intn(8)
-			key := []string{"a", "a", "b"}[rng.Intn(3)]
+			key := []string{"a", "a", "b", "c"}[rng.Intn(4)]
 			delay := time.Duration(rng.Intn(300)) * time.Microsecond
 			wg.Add(1)
 			go func() {
@@ -257,8 +275,11 @@ func TestSchedules(t *testing.T) {
 		st.Stress++
 	}
 
+	lap("stress")
 	e2eCache(t, tw, &st, rng, tracefmt.EnvInt("VERIF_E2E", 12))
+	lap("e2e_cache")
 	e2eFallback(t, tw, &st, rng, tracefmt.EnvInt("VERIF_RESOLVE", 40))
+	lap("e2e_fallback")
 
 	st.Events = tw.N
 	if err := tw.Close(); err != nil {
@@ -457,11 +478,14 @@ func e2eCache(t *testing.T, tw *tracefmt.Writer, st *stats, rng *rand.Rand, runs
 				withReload := rng.Intn(3) == 0
 				for j := 0; j < n; j++ {
 					wg.Add(1)
-					b2 := be
+					b2, p2 := be, proto
 					if rng.Intn(4) == 0 {
 						b2 = 1 - be
 					}
-					go request(&wg, b2, proto)
+					if rng.Intn(3) == 0 {
+						p2 = 765 + 47 - proto // same backend asked with the other client protocol
+					}
+					go request(&wg, b2, p2)
 					st.E2EReq++
 					if withReload && j == n/2 {
 						time.Sleep(time.Duration(rng.Intn(int(slow))))
